@@ -4,8 +4,9 @@ import PdshVerif.Opt.WcollStrings
 namespace PdshVerif.Opt.Wcoll
 open PdshVerif.Opt
 
-/-- a line the property text speaks about: no CR, and if it starts with `#include` then it is
-exactly `#include` blanks+ F blanks* with a name that fits the path buffer -/
+/-- a line the property text speaks about: ANY line that does not start with `#include` (host
+expressions, comments, blanks, CR included); a line that starts with `#include` must be exactly
+`#include` blanks+ F blanks* without CR, with a name that fits the path buffer -/
 def inclOK (topdir : Str) (l : Str) : Bool :=
   match WcollSpec.words (l.drop 8) with
   | [f] => decide (f.length < PATHBUF - 1) && decide ((topdir ++ '/' :: f).length < PATHBUF)
@@ -13,7 +14,8 @@ def inclOK (topdir : Str) (l : Str) : Bool :=
 
 structure LineOK (topdir : Str) (l : Str) : Prop where
   nonl : '\n' ∉ l
-  nocr : '\r' ∉ l
+  /-- only an include line must be free of CR (`strtok` splits at CR, the property's blanks do not) -/
+  nocr : l.take 8 = "#include".toList → '\r' ∉ l
   incl : l.take 8 = "#include".toList → WcollSpec.startsBlank (l.drop 8) = true ∧ inclOK topdir l = true
 
 theorem inclOK_some {topdir l : Str} (h : inclOK topdir l = true) :
@@ -103,7 +105,7 @@ theorem readLine_handle (fs : FS) (topdir : Str) (inc : Str → Ctx → Ctx)
           have hlen := length_of_take8 h8
           have hrest : ∀ x ∈ ('#' :: r).drop 8, x ≠ '\n' ∧ x ≠ '\r' := fun x hx =>
             ⟨fun e => hl.nonl (e ▸ (List.drop_sublist _ _).subset hx),
-             fun e => hl.nocr (e ▸ (List.drop_sublist _ _).subset hx)⟩
+             fun e => hl.nocr h8 (e ▸ (List.drop_sublist _ _).subset hx)⟩
           have htok := tokensGo_words (('#' :: r).drop 8) [] hrest
           have hcls : WcollSpec.classify ('#' :: r) = .include f := by
             unfold WcollSpec.classify
